@@ -436,7 +436,12 @@ fn run_one(c: &Case) -> Result<(), Failure> {
 				if *release_s * *sr as f64 > 50.0 && reduction.abs() > 0.5 {
 					let k = (*release_s * *sr as f64).round() as usize;
 					let low = 10f64.powf((threshold - 20.0) / 20.0) as f32;
-					let tail = vec![frame(low); k + 1];
+					// the level drops to a quiet signal or - in every other case - to digital silence with
+					// one quiet frame at the end to read the gain from: the envelope relaxes through
+					// silence just the same
+					let silent = (k + *sr as usize) % 2 == 0;
+					let mut tail = vec![if silent { Frame::ZERO } else { frame(low) }; k + 1];
+					tail[k - 1] = frame(low);
 					let out2 = super::c13::process_with(&mut fx, *sr, &tail, &whole(k + 1, 512), &info);
 					let r_k = db(low as f64) - db(pick(&out2[k - 1]));
 					let frac = r_k / reduction;
@@ -597,7 +602,7 @@ impl Property for C14 {
 		"C14"
 	}
 	fn rule(&self) -> &'static str {
-		"each case builds one effect through its public builder with generated parameters and a sample rate 8k..192k and compares it with an independent reference: filter (4 modes) and EQ (3 kinds): sine gain measured at a probe frequency within two octaves of the corner against the analytic magnitude of the cited state-variable design (0.1 dB + 5e-4/g dB, g = tan(pi corner / rate)), corner / centre / shelf landmarks - in a quarter of the cases on an effect instance that first ran at another device rate and was then told the new one -, and sample-by-sample agreement of the filter with an f64 implementation of the cited algorithm on noise; delay: impulse trains against a reference delay line with floor(time x rate) frames, feedback gain applied once per round trip after the feedback effects (volume, hard / soft clip), sqrt mix law (1e-5 per frame); reverb: sample-by-sample against an f64 Freeverb network (8 combs + 4 all-passes per channel, tunings x rate/44100, spread 23, input gain 0.015) and a decaying tail for feedback < 1; compressor: unchanged below threshold, steady-state reduction (level - threshold)(1 - 1/ratio) dB (0.05 dB), 63.2% of it after the attack time and 36.8% one release time after the level falls below the threshold (2%), with the signal on both channels, the left only or the right only; distortion: clamp(x d)/d and x d/(1+|x d|)/d, transparent for small signals; volume / panning control: decibel and equal-power laws. Non-trivial = parameters differ from the builder defaults (always, by generation) and the probe lies within two octaves of the corner; distinct = distinct decoded choices."
+		"each case builds one effect through its public builder with generated parameters and a sample rate 8k..192k and compares it with an independent reference: filter (4 modes) and EQ (3 kinds): sine gain measured at a probe frequency within two octaves of the corner against the analytic magnitude of the cited state-variable design (0.1 dB + 5e-4/g dB, g = tan(pi corner / rate)), corner / centre / shelf landmarks - in a quarter of the cases on an effect instance that first ran at another device rate and was then told the new one -, and sample-by-sample agreement of the filter with an f64 implementation of the cited algorithm on noise; delay: impulse trains against a reference delay line with floor(time x rate) frames, feedback gain applied once per round trip after the feedback effects (volume, hard / soft clip), sqrt mix law (1e-5 per frame); reverb: sample-by-sample against an f64 Freeverb network (8 combs + 4 all-passes per channel, tunings x rate/44100, spread 23, input gain 0.015) and a decaying tail for feedback < 1; compressor: unchanged below threshold, steady-state reduction (level - threshold)(1 - 1/ratio) dB (0.05 dB), 63.2% of it after the attack time and 36.8% one release time after the level falls below the threshold or to digital silence (2%), with the signal on both channels, the left only or the right only; distortion: clamp(x d)/d and x d/(1+|x d|)/d, transparent for small signals; volume / panning control: decibel and equal-power laws. Non-trivial = parameters differ from the builder defaults (always, by generation) and the probe lies within two octaves of the corner; distinct = distinct decoded choices."
 	}
 	fn assumptions(&self) -> Vec<String> {
 		vec![
